@@ -978,9 +978,9 @@ def targeted():
 def gen_cases(ctx):
     rng = ctx.rng
     cases = []
-    for _ in range(ctx.n(1250, 9000)):
+    for _ in range(ctx.n(1250, 7500)):
         cases.append(gen_server_case(rng))
-    for _ in range(ctx.n(220, 1500)):
+    for _ in range(ctx.n(220, 1200)):
         cases.append(gen_client_case(rng))
     return cases
 
